@@ -229,6 +229,7 @@ class Models(object):
         np.complexfloating = TypeLike('complexfloating', lambda x=0: x, lambda x: (isinstance(x, Poly) and not x.is_real())
                                       or getattr(x, 'kind', None) in ('c', 'z'))
         np.bool_ = TypeLike('bool_', lambda x=False: bool(x), lambda x: isinstance(x, bool))
+        np.generic = TypeLike('generic', lambda x=0: x, lambda x: num(x))
         np.finfo = lambda t=None: Namespace('finfo', eps=Poly.sym('EPS'), tiny=Poly.sym('TINY'),
                                             smallest_normal=Poly.sym('TINY'), max=Poly.sym('HUGE'),
                                             min=-Poly.sym('HUGE'))
